@@ -37,7 +37,19 @@ class Kinematics:
     def on_step(self, cl, ev):
         sim = self.sim
         if isinstance(ev['out'], Raised):
-            return  # a raising step is a step that did not happen (C01 judges totality)
+            # a raising step is a step that did not happen (C01 judges totality); but if the documented kinematics say the
+            # pose must change, "did not happen" is itself a violation of "moves iff the target is inside and free"
+            w0, a = ev['w0'], ev['action']
+            chain = cl.mspec['chain']
+            if M.inside(w0, w0['agent'][0], w0['agent'][1]) and all(n in M.DETERMINISTIC or n == 'move_obstacles' for n in chain):
+                mw = M.mutable(w0)
+                for name in chain:
+                    if name in M.DETERMINISTIC:
+                        M.DETERMINISTIC[name](mw, a)
+                if list(mw['agent'][:3]) != list(w0['agent'][:3]):
+                    sim.violate('kinematics', 'commanded_motion_did_not_happen', 'step_raised', _cause(w0, a, list(w0['agent'][:3]), list(mw['agent'][:3])),
+                                f'action {a}: the step raised {ev["out"]!r} although the pose must change {w0["agent"][:3]} -> {mw["agent"][:3]}')
+            return
         w0, w1, a = ev['w0'], ev['w1'], ev['action']
         if not M.inside(w0, w0['agent'][0], w0['agent'][1]):
             return
